@@ -19,11 +19,12 @@ def parse_image(line):
 
 
 def frame_offsets(b):
-    """offsets of the bytes that belong to 4-byte length prefixes in a v1 shard file"""
+    """offsets of the most significant TWO bytes of every 4-byte length prefix in a v1 shard file (altering them
+    makes the real reader allocate 64 kB .. 2 GB per load: legal, but up to seconds each under load)"""
     offs, i = set(), 0
     while i + 4 <= len(b):
         n = int.from_bytes(b[i:i + 4], 'big')
-        offs.update(range(i, i + 4))
+        offs.update((i, i + 1))
         if n == 0:
             break
         i += 4 + n
@@ -101,8 +102,8 @@ def c11_extra(prop, tier, rng, result):
             pref = frame_offsets(b) if name not in MANIFESTS else set()
             for off in range(len(b)):
                 for mask in (0x01, 0x80, 0xff):
-                    if off in pref and off % 4 == 0 and mask != 0x01 and name not in MANIFESTS:
-                        continue        # top byte of a length prefix: 2 GB allocations (legal, but seconds each)
+                    if off in pref and mask != 0x01 and name not in MANIFESTS:
+                        continue        # high bytes of a length prefix: only the lowest bit is flipped (16 MB at most)
                     faults.append(('flip', name, (off, mask)))
         shards = [k for k in files if k.startswith('data/shard-')]
         # the same bit flipped at the same offset of the first record of two shards (equal-length records):
